@@ -402,11 +402,32 @@ func pruneNoEffect(f *ast.File, info *types.Info) {
 		}
 		return false
 	}
+	// canonical statement forms: `x += 1` / `x -= 1` are analysed as `x++` / `x--`
+	canon := func(st ast.Stmt) ast.Stmt {
+		as, ok := st.(*ast.AssignStmt)
+		if !ok || len(as.Lhs) != 1 || len(as.Rhs) != 1 || (as.Tok != token.ADD_ASSIGN && as.Tok != token.SUB_ASSIGN) {
+			return st
+		}
+		lit, ok := unparen(as.Rhs[0]).(*ast.BasicLit)
+		if !ok || lit.Kind != token.INT || lit.Value != "1" {
+			return st
+		}
+		if tv, ok := info.Types[as.Lhs[0]]; ok {
+			if b, isB := tv.Type.Underlying().(*types.Basic); !isB || b.Info()&types.IsInteger == 0 {
+				return st
+			}
+		}
+		tok := token.INC
+		if as.Tok == token.SUB_ASSIGN {
+			tok = token.DEC
+		}
+		return &ast.IncDecStmt{X: as.Lhs[0], TokPos: as.TokPos, Tok: tok}
+	}
 	filter := func(list []ast.Stmt) []ast.Stmt {
 		out := list[:0:0]
 		for _, st := range list {
 			if !noEffect(st) {
-				out = append(out, st)
+				out = append(out, canon(st))
 			}
 		}
 		return out
@@ -419,6 +440,10 @@ func pruneNoEffect(f *ast.File, info *types.Info) {
 			n.Body = filter(n.Body)
 		case *ast.CommClause:
 			n.Body = filter(n.Body)
+		case *ast.ForStmt:
+			if n.Post != nil {
+				n.Post = canon(n.Post)
+			}
 		}
 		return true
 	})
